@@ -271,6 +271,7 @@ pub fn check_set(_ctx: &Ctx, s: &ScriptSet, acc: &mut Acc) -> Result<(), Fail> {
         "path-segmentation" => acc.class("sets:differ-in-path-segmentation"),
         "path-prefix" => acc.class("sets:differ-in-path-prefix"),
         "path-leading-empty-segment" => acc.class("sets:differ-in-leading-empty-segment"),
+        "path-long-segments" => acc.class("sets:differ-in-255-byte-segments"),
         "path-vs-query" => acc.class("sets:differ-in-path-with-query-repeating-the-segment"),
         _ => acc.class("sets:mixed"),
     }
@@ -289,7 +290,7 @@ fn transfer(upload: bool) -> BoxedStrategy<Transfer> {
             query: vec![],
             upload,
             endpoint: 1,
-            method: if upload { 3 } else { 1 },
+            method: if upload { [2u8, 3, 5, 6, 7][(seed % 5) as usize] } else { [1u8, 5, 1, 1, 2][(seed % 5) as usize] },
             path: vec![b"a".to_vec(), b"b".to_vec()],
             szx,
             exchanges,
@@ -309,7 +310,14 @@ fn differ(a: &Transfer, b: &mut Transfer, how: u8) -> &'static str {
     b.method = a.method;
     b.upload = a.upload;
     b.query = a.query.clone();
-    match how % 7 {
+    match how % 8 {
+        7 => {
+            // two different segments of the maximal length (255 bytes)
+            let mut s = vec![b'p'; 254];
+            s.push(b'1');
+            b.path = vec![s];
+            "path-long-segments"
+        }
         5 => {
             // one leading empty segment ("//a/b" vs "/a/b")
             b.path = vec![b"".to_vec(), b"a".to_vec(), b"b".to_vec()];
@@ -326,12 +334,9 @@ fn differ(a: &Transfer, b: &mut Transfer, how: u8) -> &'static str {
             "endpoint"
         }
         1 => {
-            b.method = match a.method {
-                1 => 5,
-                3 => 2,
-                2 => 3,
-                _ => 1,
-            };
+            // any other method code 1..=7 (GET/POST/PUT/DELETE/FETCH/PATCH/iPATCH)
+            let shift = 1 + (how / 8) % 6;
+            b.method = (a.method - 1 + shift) % 7 + 1;
             "method"
         }
         2 => {
@@ -353,8 +358,8 @@ fn script_set(three: bool) -> BoxedStrategy<ScriptSet> {
     (
         proptest::collection::vec((any::<bool>(), any::<u8>()), if three { 3 } else { 2 }),
         any::<bool>(),
-        0u8..7,
-        0u8..7,
+        0u8..48,
+        0u8..48,
         60usize..200,
     )
         .prop_flat_map(move |(kinds, mixed_method, how1, how2, budget)| {
@@ -376,6 +381,9 @@ fn script_set(three: bool) -> BoxedStrategy<ScriptSet> {
                 ts[1].endpoint = a.endpoint;
                 ts[1].path = a.path.clone();
                 ts[1].method = if up { 3 } else { 1 };
+                if ts[1].method == a.method {
+                    ts[1].method = if up { 2 } else { 5 };
+                }
                 label.push_str("method");
             } else {
                 let (head, tail) = ts.split_at_mut(1);
@@ -385,11 +393,18 @@ fn script_set(three: bool) -> BoxedStrategy<ScriptSet> {
                 // the third differs from the first in one component and from
                 // the second in one component: vary the same component again
                 let first = ts[0].clone();
-                let how = if label == "endpoint" { 0 } else if label == "method" { 1 } else { how2.max(2) };
+                let how = if label == "endpoint" { 0 } else if label == "method" { 1 + 8 * (how2 / 8) } else { (how2 % 8).max(2) };
                 let l = differ(&first, &mut ts[2], how);
                 match l {
                     "endpoint" => ts[2].endpoint = first.endpoint + 2,
-                    "method" => ts[2].method = if first.method == 1 || first.method == 5 { 6 } else { 4 },
+                    "method" => {
+                        // a third method different from the other two
+                        let mut m = ts[2].method;
+                        while m == first.method || m == ts[1].method {
+                            m = m % 7 + 1;
+                        }
+                        ts[2].method = m;
+                    }
                     _ => {
                         if ts[2].path == ts[1].path {
                             ts[2].path = vec![b"a".to_vec(), b"b".to_vec(), b"".to_vec()];
@@ -400,7 +415,14 @@ fn script_set(three: bool) -> BoxedStrategy<ScriptSet> {
                     label = format!("{label}+{l}");
                 }
             }
-            ScriptSet { budget, transfers: ts, differ_in: label }
+            if label.contains("path-long-segments") {
+                // the first transfer gets a maximal-length segment of its own
+                let mut s = vec![b'p'; 254];
+                s.push(b'0');
+                ts[0].path = vec![s];
+            }
+            // uploads and downloads may use any method code
+            ScriptSet { budget: if label.contains("long") { budget + 300 } else { budget }, transfers: ts, differ_in: label }
         })
         .boxed()
 }
